@@ -107,7 +107,7 @@ def one(args):
 def main():
     tier = sys.argv[sys.argv.index('--tier') + 1] if '--tier' in sys.argv else 'quick'
     chk = vlib.Check(PROP, tier)
-    n = int(os.environ.get('VERIF_N', '0')) or (400 if tier == 'quick' else 10000)
+    n = int(os.environ.get('VERIF_N', '0')) or (1000 if tier == 'quick' else 40000)
     try:
         BINS['dbg'] = vlib.build('dbg')['lyrun']
         BINS['rel'] = vlib.build('rel')['lyrun']
